@@ -196,6 +196,12 @@ def invoke_events(rng, sc, lha, hdr, tier, ev, prefixers=()):
     # a rejected word alone is an archive name
     run([b"z"], "path", b"", "", [], [], cwd, False, enoent)
     run([b""], "path", b"", "", [], [], cwd, False, enoent)
+    # a directory where an archive is expected: it can be opened, every read fails, the archive has no members
+    os.makedirs(os.path.join(cwd, "adir"))
+    os.utime(os.path.join(cwd, "adir"), (NOW - 3000, NOW - 3000))
+    for w in (b"l", b"v", b"t", b"p", b"xn"):
+        run([w, b"adir"], "path", b"", os.path.join(cwd, "adir"), [], [], cwd, True)
+    run([b"adir"], "path", b"", os.path.join(cwd, "adir"), [], [], cwd, True)
     # nothing behind "-"
     for w in (b"l", b"v", b"t", b"p", b"x"):
         run([w, b"-"], "null", b"", "", [], [], cwd, True)
